@@ -85,7 +85,7 @@ theorem insR_step (kind : α → Nat) (R lt : α → α → Bool) (hk : CrossKin
         · by_cases hc : kind x = c
           · have hyc : (kind y == c) = true := by simp; omega
             have hxc : (kind x == c) = true := by simp; omega
-            simp [List.filter, hyc, hxc, hc, insR, hr']
+            simp [List.filter, hyc, hc, insR, hr']
           · have hyc : (kind y == c) = false := by simp; omega
             have hxc : (kind x == c) = false := by simp; omega
             simp [List.filter, hyc, hxc, hc]
@@ -123,7 +123,7 @@ theorem insR_step (kind : α → Nat) (R lt : α → α → Bool) (hk : CrossKin
             rw [hnil]
             have hnil' := hnil
             simp only [List.filter] at hnil'
-            simp [List.filter, hxc, hc, insR]
+            simp [List.filter, hc, insR]
             simpa [List.filter] using hnil
           · have hxc : (kind x == c) = false := by simp; omega
             simp [List.filter, hxc, hc]
@@ -143,8 +143,7 @@ theorem fold_inv (kind : α → Nat) (R lt : α → α → Bool) (hk : CrossKind
     simp only [List.foldl_cons]
     rw [i2 c, h2 c]
     by_cases hc : kind x = c
-    · have : (kind x == c) = true := by simp [hc]
-      simp [List.filter, this, hc]
+    · simp [List.filter, hc]
     · have : (kind x == c) = false := by simp [hc]
       simp [List.filter, this, hc]
 
@@ -285,5 +284,27 @@ theorem dirPos_injective (order : List String) (d₁ d₂ : String) (h₁ : d₁
   have e₂ := dirPos_getElem order d₂ h₂
   rw [h, e₂] at e₁
   exact (Option.some.inj e₁).symm
+
+/-! ### pairwise distinct kinds -/
+
+theorem filter_kind_length_le_one {α : Type} (kind : α → Nat) (c : Nat) :
+    ∀ (l : List α), (l.map kind).Nodup → (l.filter (fun x => kind x == c)).length ≤ 1
+  | [], _ => by simp
+  | x :: xs, h => by
+    have hx : kind x ∉ xs.map kind := (List.nodup_cons.1 (by simpa using h)).1
+    have hxs : (xs.map kind).Nodup := (List.nodup_cons.1 (by simpa using h)).2
+    by_cases hc : kind x = c
+    · have : xs.filter (fun y => kind y == c) = [] := by
+        rw [List.filter_eq_nil_iff]
+        intro y hy hk
+        exact hx (List.mem_map.2 ⟨y, hy, by simpa [hc] using hk⟩)
+      simp [List.filter, hc, this]
+    · have : (kind x == c) = false := by simpa using hc
+      simpa [List.filter, this] using filter_kind_length_le_one kind c xs hxs
+
+theorem perm_eq_of_length_le_one {α : Type} : ∀ (a b : List α), a.Perm b → a.length ≤ 1 → a = b
+  | [], b, h, _ => (List.Perm.nil_eq h)
+  | [x], b, h, _ => (List.singleton_perm.1 h)
+  | _ :: _ :: _, _, _, h => by simp at h
 
 end CaddyModel.C16
